@@ -8,15 +8,16 @@ from vf import env, table, core, tlc
 META = dict(
     property_id="C31", level="model_checking", design_ref="DESIGN.md §4 C31",
     technique="TLA+ model of the path pipeline (translate_client_path: root match + joinpath stack machine + escape; "
-              "VfsRequest un-escape; userdir filter; chroot URL normalisation; transport decoding) checked by TLC "
+              "VfsRequest un-escape + escaped-separator guard; userdir filter; chroot URL normalisation; transport decoding) checked by TLC "
               "over a bounded hostile path alphabet; the TLC case table is sent through the real "
               "SmartServerRequestHandler over a backing transport built by BzrServerFactory._make_backing_transport; "
               "the places the served transport was asked to touch are judged by the TLA+ laws",
     level_text="Exhaustive over client paths of up to 3 (quick, for root '/'; 4 thorough) names from {a, ., .., empty, %2E%2E, "
                "%252E%252E, ~, ~user, e-acute, %00} joined by '/' or '%2F' (also '%252F' for <=3 names in thorough), "
                "relative / absolute / root-prefixed, roots {/, /srv/, /a/}, plus control-directory opens by URL "
-               "under two jail roots. TLC proves on the model that nothing outside one named input class escapes "
-               "and exhibits the escaping inputs; every case is executed for VFS and non-VFS verbs on the real "
+               "under two jail roots. TLC proves on the model that no accepted path leaves the served directory "
+               "(and that without the escaped-separator guard exactly the two historical input classes would), and "
+               "exhibits the one remaining jail-hook deviation (known finding); every case is executed for VFS and non-VFS verbs on the real "
                "handler and TLC evaluates 'not rejected => touched location inside the served directory' on what "
                "the served transport actually received. Path translation is a finite-state transducer over token "
                "classes, so small-scope exhaustion is the right level.",
@@ -283,8 +284,8 @@ def _translate(w, cls, cp, root):
     from breezy import urlutils
     try:
         rel = cls(w.backing, root).translate_client_path(cp)
-    except urlutils.InvalidURLJoin:
-        return {"rej": "above-root", "rel": []}
+    except urlutils.InvalidURLJoin as e:
+        return {"rej": "escaped-separator" if "escaped path separator" in str(e) else "above-root", "rel": []}
     except terr.PathNotChild:
         return {"rej": "not-child", "rel": []}
     except Exception as e:
@@ -386,7 +387,7 @@ def _consts(names, shallow, seplevel, r="all", f="all", first="all", opens="FALS
 
 
 DEEP = [("/", "rel"), ("/a/", "rooted")]       # = DeepRootForms of the spec
-WITNESSES = [{"witness": "WitnessJailHolds"}, {"witness": "WitnessOpenJailHolds"}]
+WITNESSES = [{"witness": "WitnessUnguardedJailHolds"}, {"witness": "WitnessOpenJailHolds"}]
 
 
 def _thorough_slices():
@@ -404,7 +405,8 @@ SMALL = _consts(2, 2, 1, "/", "rel", opens="TRUE")
 
 
 def _witness(ctx, name):
-    """Deviation witnesses: TLC must violate the property's invariant on the model, i.e. exhibit an escaping input."""
+    """TLC must exhibit an input on which (a) the translation WITHOUT the escaped-separator guard and (b) the jail
+    hook with a jail subdirectory (known finding) leave the jail on the model."""
     res = tlc.check(ctx, "SmartJailGen", cfg_text=table.cfg(SMALL, (name,)), expect_violation=name,
                     label="model deviation " + name, workers=2)
     ctx.sample({"model_counterexample_to": name, "input": res["trace"][-1][1] if res.get("trace") else None}, limit=4)
@@ -420,12 +422,14 @@ def run(ctx):
                                env={"VF_WITNESSES": "1"}, label="cases + model check + witnesses")
         if len(cases) < 1000:
             ctx.machinery("case table too small: %d" % len(cases))
-        # the model's own counter-examples to the jail invariant (named deviations; WitnessesReached requires them)
+        # samples: a path only the escaped-separator guard keeps inside, and the model's own counter-example to the
+        # jail-hook invariant (known finding); WitnessesReached requires both to exist
         for k in cases:
             sp = k["spec"]
-            if (k["c"]["kind"] == "path" and sp["vfs"]["where"] == "out") or sp.get("where") == "out":
+            if (k["c"]["kind"] == "path" and sp["vfs"]["rej"] == "escaped-separator" and sp["dev"]) \
+                    or sp.get("where") == "out":
                 if not any(s_.get("kind") == k["c"]["kind"] for s_ in ctx.cov["samples"]):
-                    ctx.sample({"kind": k["c"]["kind"], "model_escapes_on": k["c"], "model_verdict": sp}, limit=2)
+                    ctx.sample({"kind": k["c"]["kind"], "guarded_or_escaping_case": k["c"], "model_verdict": sp}, limit=2)
         # TLC has checked the model on every case; replay all short ones and a seeded sample of the 3-name paths
         long_ = [k for k in cases if k["c"]["kind"] == "path" and len(k["c"]["names"]) >= 3]
         short = [k for k in cases if not (k["c"]["kind"] == "path" and len(k["c"]["names"]) >= 3)]
